@@ -63,6 +63,11 @@ fn build(tier: Tier, idx: u64) -> Option<(String, Vec<String>, Value, &'static s
         let src = g.source();
         return Some((src.clone(), g.tags(), gen_repr(&g, &src), g.family, true, 0));
     }
+    if m != 0 && g.tags().iter().any(|t| t == "local_letrec") {
+        // no near-miss mutants of programs with a recursive local function: a mutated loop bound or step makes the
+        // recursion unbounded, and a program that recurses for ever is not a safety failure of the implementation
+        return None;
+    }
     let (p, what) = mutate(&g.prog, m)?;
     let src = lang::print(&p);
     let mut tags = g.tags();
